@@ -232,7 +232,7 @@ def linearise(roots):
 
 @rule(
     "FACT-DRIVER",
-    ["C01", "C04", "C09"],
+    ["C01", "C04", "C09", "C12", "C15"],
     "compute_argument_factorization (driver, argument ordering, graph_insert, dispatch of the handlers, target / component "
     "bookkeeping, dependencies) interpreted on sample scalar graphs whose expressions carry a polynomial meaning: per component, "
     "sum over target nodes of factor * product of the arguments of the key recorded at the same position equals the integrand; "
@@ -240,6 +240,14 @@ def linearise(roots):
     min_instances=8,
 )
 def fact_driver(repo, res):
+    """C01/C04/C09 for every finding; the module-state obligation carries its own properties (C12, C15)."""
+    _fact_driver(repo, res)
+    for f_ in res.findings:
+        if not f_.props:
+            f_.props = ("C01", "C04", "C09")
+
+
+def _fact_driver(repo, res):
     m = repo.mod(FACT)
     f = m.func("compute_argument_factorization")
     res.functions.add(f.key)
@@ -277,13 +285,37 @@ def fact_driver(repo, res):
         it.overrides["analyse_modified_terminal"] = _PyCall(analyse)
         return it, new_graph
 
-    def run(roots, rank):
+    import ast as _ast
+    import copy as _copy
+
+    fm_ = repo.mod(FACT)
+    module_containers = [n_ for n_, v_ in fm_.assigns.items() if isinstance(v_, (_ast.Dict, _ast.List, _ast.Set))
+                         or (isinstance(v_, _ast.Call) and getattr(v_.func, "id", "") in ("dict", "list", "set"))]
+
+    def run(roots, rank, label="?"):
         it, new_graph = world()
         nodes, out_edges, e2i = linearise(roots)
         S = new_graph()
         S.f["nodes"], S.f["out_edges"], S.f["e2i"] = nodes, out_edges, e2i
         S.f["in_edges"] = {i: [] for i in nodes}
-        F = it.call_f(f, [S, rank])
+        # module-level containers of the factorisation module (shared by every request of the process) as they are before the request
+        before = {}
+        for n_ in module_containers:
+            try:
+                before[n_] = _copy.copy(it.module_value(FACT, n_))
+            except AnalysisError:
+                pass
+        try:
+            F = it.call_f(f, [S, rank])
+        finally:
+            for n_, b_ in before.items():
+                now = it.module_value(FACT, n_)
+                if len(now) != len(b_):
+                    k_ = f"{f.key}:module-state-unchanged:{n_}"
+                    res.ob(k_)
+                    res.fail(k_, f"after the request `{label}` the module-level container `{n_}` of {FACT} holds {len(now)} entries instead of {len(b_)}: it is shared by all "
+                             "requests of the process (argument-free nodes all refer to it), so every later factorisation - also after a request that was "
+                             "rejected - starts from what this one left behind", loc, props=("C12", "C15", "C01"))
         if not isinstance(F, Node) or "nodes" not in F.f:
             raise AnalysisError("compute_argument_factorization did not return an expression graph")
         return F, nodes
@@ -292,7 +324,7 @@ def fact_driver(repo, res):
         key = f"{f.key}:{label}"
         res.ob(key)
         try:
-            F, S_nodes = run(roots, rank)
+            F, S_nodes = run(roots, rank, label)
         except Raised as e:
             res.fail(key, f"compute_argument_factorization raises ({e.what}) on `{label}`", loc)
             return
@@ -385,6 +417,15 @@ def fact_driver(repo, res):
     scenario("bilinear: conditional with arguments in both branches", [Conditional(cond, (a * u0) * v0 + u1 * v1, (b * u0) * v0) * g], 2, [v0, v1, u0, u1])
     scenario("bilinear: conditional with a zero branch", [Conditional(cond, Zero(), (b * u0) * v1)], 2, [v1, u0])
     w0, w1 = args(1)
+    # a sum of an argument-dependent and an argument-free term is rejected (expressions are not arity-checked by UFL) - and leaves nothing behind
+    key = f"{f.key}:mixed-rank sum rejected"
+    res.ob(key)
+    try:
+        run([a * w0 + b], 1, "f*v + g (rejected)")
+        res.fail(key, "the expression f*v + g (an argument-dependent plus an argument-free summand) is factorised instead of being rejected: the argument-free term has no "
+                 "place in A[point][component][dof]", loc)
+    except Raised:
+        pass
     scenario("linear: coefficient-dependent factors with a function of a coefficient", [MathFunction(a * b) * w0 + (w1 / d_) * c_ + w0], 1, [w0, w1])
     scenario("linear: single bare argument", [w1], 1, [w0, w1][1:])
     scenario("functional: no arguments", [MathFunction(a) * b + c_], 0, [])
